@@ -385,4 +385,50 @@ Proof.
   rewrite (servers_ignore s!"unsigned" u o (signatures R)) by discriminate.
   destruct (content_hash_ignores_uncovered H o s!"unsigned" u Hs eq_refl) as [-> _]. reflexivity.
 Qed.
+
+(** * A redacted copy still has valid signatures. *)
+Lemma spec_redact_lookup_kept v o k :
+  sorted o -> keeps_top v k = true -> k <> s!"content" ->
+  (exists ty, lookup s!"type" o = Some (JStr ty)) ->
+  lookup k (spec_redact v o) = lookup k o.
+Proof.
+  intros Hs Hk Hc [ty Hty]. unfold spec_redact. rewrite Hty, lookup_fmap_obj by exact Hs.
+  destruct (lookup k o) as [x|]; [|reflexivity]. rewrite Hk.
+  destruct (str_eqb_spec k s!"content"); [congruence|reflexivity].
+Qed.
+
+Theorem redacted_copy_verifies pkm v R o vd red servers' calc' :
+  rules_of v = Some R -> wf_obj o ->
+  verify_event user_server event_server H verify pkm o R = Ok vd ->
+  redact (redaction R) o None = Ok red ->
+  (* the redacted copy demands no server the original did not (see the third-party-invite
+     boundary in DESIGN.md section 8) and is itself within the size limit *)
+  servers_to_check user_server event_server (signatures R) red = Ok servers' ->
+  (forall l, servers_to_check user_server event_server (signatures R) o = Ok l -> forall s, In s servers' -> In s l) ->
+  content_hash H red = Ok calc' ->
+  exists hash, stored_hash o = Ok hash /\
+    verify_event user_server event_server H verify pkm red R = Ok (verdict_of hash calc').
+Proof.
+  intros HR Hwf Hv Hred Hsrv' Hsub Hc'.
+  destruct (verify_event_ok_inv pkm o R vd Hv) as (r0 & hash & sigmap & servers & calc & E1 & E2 & E3 & E4 & E5 & Hall & _).
+  rewrite Hred in E1. injection E1 as <-.
+  pose proof (wf_obj_sorted _ Hwf) as Hs.
+  destruct (well_typed v o) eqn:Hwt;
+    [|destruct (redact_ill_typed v R o None HR Hwf Hwt) as [x Hx]; congruence].
+  rewrite (redact_eq_spec v R o HR Hwf Hwt) in Hred. injection Hred as <-.
+  assert (Hty : exists ty, lookup s!"type" o = Some (JStr ty)).
+  { unfold well_typed in Hwt. destruct (lookup s!"type" o) as [[| | |ty| |]|]; try discriminate. eauto. }
+  exists hash. split; [exact E2|].
+  assert (Hidem : redact (redaction R) (spec_redact v o) None = Ok (spec_redact v o)).
+  { apply (redact_idem v R o); [exact HR|exact Hwf|]. apply (redact_eq_spec v R o HR Hwf Hwt). }
+  rewrite (verify_event_spec pkm (spec_redact v o) R (spec_redact v o) hash sigmap servers' calc' Hidem).
+  - assert (Hall' : forallb (entity_ok verify pkm sigmap (signing_bytes (spec_redact v o))) servers' = true).
+    { apply forallb_forall. intros s Hin. rewrite forallb_forall in Hall. apply Hall. exact (Hsub servers E4 s Hin). }
+    now rewrite Hall'.
+  - unfold stored_hash in *. change k_hashes with s!"hashes" in *.
+    rewrite (spec_redact_lookup_kept v o s!"hashes" Hs eq_refl ltac:(discriminate) Hty). exact E2.
+  - rewrite (spec_redact_lookup_kept v o s!"signatures" Hs eq_refl ltac:(discriminate) Hty). exact E3.
+  - exact Hsrv'.
+  - exact Hc'.
+Qed.
 End Ev.
